@@ -65,6 +65,9 @@ OUTPUT_SRCS = [
     # the location <last named node> + [value], which is the location of the attribute / parameter of that name)
     "class A(object):\n    'x'\n    alias: str = 'x'\n    x: str = 'old'\n    s: int = 1\n\n\nNAMES = ['x', 's', 'alias']\n",
     "def keep(a, x=1, b='x', s='a'):\n    return 'x'\n",
+    # module-level statements named like the target's last component, in front of it (a query must match the WHOLE location)
+    "x = 0\ns: int = 7\n\n\nclass A(object):\n    x: str = 'old'\n    s: int = 1\n\n\nclass B(object):\n    def keep(self, x, s=2):\n        return x\n",
+    "def x():\n    return 1\n\n\nclass s(object):\n    pass\n\n\nclass A(object):\n    x: str = 'old'\n    s: int = 1\n",
 ]
 INPUT_PARAMS = ["In.x", "In.s", "In.e", "src.p", "src.q"]
 EVAL_PARAMS = ["LIT", "VERBOSE", "MODES", "PAIR"]
